@@ -240,6 +240,26 @@ func runC09Case(seed int64, idx int) *c09Result {
 		}()
 		_ = leadSamples
 	}
+	// parameter sets acceptable in the tracks the client reports: the one in effect at the start of the
+	// last segment that was complete when the client was attached, and every one carried by a write
+	// between that point and the moment OnTracks runs (C02: once the first complete segment encoded
+	// with changed parameters is listed, the init segment carries them)
+	wmu.Lock()
+	attachStartWrite := 0
+	if segRot >= 2 {
+		attachStartWrite = rotWrites[segRot-2]
+	}
+	wmu.Unlock()
+	nextAtTracks := -1
+	run.OnTracksHook = func(*clirun.Run) {
+		if ll {
+			wmu.Lock()
+			nextAtTracks = next
+			wmu.Unlock()
+		} else {
+			nextAtTracks = next // the demand-gated writer only runs inside requests of this client
+		}
+	}
 	if err := run.C.Start(); err != nil {
 		fail("harness", "client start: %v", err)
 		return res
@@ -396,6 +416,34 @@ func runC09Case(seed int64, idx int) *c09Result {
 		if variant != media.VarTS {
 			if !codecMatches(ts, ct.Codec) {
 				fail("track-params/"+ts.Kind.String(), "client track %d (%s): codec parameters differ from every parameter set written to the muxer", ci, ts.Kind)
+			} else if len(ts.ParamSets) > 1 && nextAtTracks >= 0 {
+				// which parameter sets may the init segment carry at this point
+				inEffect := -1
+				ok := map[int]bool{}
+				for _, sm := range c.Samples(ti) {
+					if sm.ParamIdx < 0 {
+						continue
+					}
+					if sm.WriteIdx <= attachStartWrite {
+						inEffect = sm.ParamIdx
+					} else if sm.WriteIdx < nextAtTracks {
+						ok[sm.ParamIdx] = true
+					}
+				}
+				ok[inEffect] = true
+				sub := &media.TrackSpec{Kind: ts.Kind, AAC: ts.AAC, OpusCh: ts.OpusCh}
+				for i := range ts.ParamSets {
+					if ok[i] {
+						sub.ParamSets = append(sub.ParamSets, ts.ParamSets[i])
+					}
+				}
+				res.obs["tracks_checked_against_current_params"]++
+				if os.Getenv("C09_DEBUG") != "" {
+					fmt.Printf("C09_DEBUG case %d variant %d features %v attachStartWrite %d nextAtTracks %d inEffect %d ok %v matches %v\n", idx, variant, c.Features, attachStartWrite, nextAtTracks, inEffect, keysOf(ok), codecMatches(sub, ct.Codec))
+				}
+				if !codecMatches(sub, ct.Codec) {
+					fail("track-params-stale/"+ts.Kind.String(), "client track %d (%s): the codec parameters it reports are a set written earlier, not the one in effect since write %d (start of the last segment complete at attach time) nor one written since (acceptable sets %v of %d)", ci, ts.Kind, attachStartWrite, keysOf(ok), len(ts.ParamSets))
+				}
 			}
 			isRend := ti != lead
 			wantName, wantLang, wantDef := "", "", false
@@ -533,6 +581,15 @@ func firstDeliveredLeadWritten(run *clirun.Run, c *media.Case, lead int) int64 {
 		break
 	}
 	return -1 << 62
+}
+
+func keysOf(m map[int]bool) []int {
+	var out []int
+	for k := range m {
+		out = append(out, k)
+	}
+	sort.Ints(out)
+	return out
 }
 
 func codecMatches(ts *media.TrackSpec, got codecs.Codec) bool {
